@@ -4,6 +4,7 @@ from vflib import thir as T, tables
 from vflib.terms import Evaluator, Tm, subterms, subst
 from spec import tables as SPEC
 from rules.c04 import leaves_with, expand_closures
+from rules import shared
 
 META = {
     "level": "other",
@@ -273,7 +274,7 @@ def r4_r5_r6(prog, ev, rep, match_impl, search_impl):
         pt = subst(pat_term, {flag: extra})
         shape, taint, conditional = pattern_shape(ev2, pt)
         want_whole = variant == "Match"
-        key = "%s|%s" % (fn, variant)
+        key = "%s|%s" % (shared.rk(prog, ev, fn), variant)
         if conditional:
             rep.bad("C10-R4", key + "/anchoring", where,
                     "anchoring of the pattern is conditional on the pattern's own text (%s): a pattern such as `a|b` or one that "
@@ -287,7 +288,7 @@ def r4_r5_r6(prog, ev, rep, match_impl, search_impl):
         for tn in taint:
             all_taint.add(tn)
     for tn in sorted(all_taint):
-        rep.bad("C10-R5", "%s|%s" % (fn, tn), where,
+        rep.bad("C10-R5", "%s|%s" % (shared.rk(prog, ev, fn), tn), where,
                 "the pattern is rewritten by `%s` before it reaches the regex engine" % tn)
     rep.ok("C10-R5", "census", where, "pattern journey examined for both flag values")
     # matcher: the closure applied to the compiled regex
